@@ -1226,6 +1226,10 @@ class Interp:
                 else:
                     self.world.broadcast_multi(self, it, calls)
                 return
+        if isinstance(it, ListObj) and it.symbolic and it.elem.startswith("ref:") and hasattr(self.world, "broadcast_general"):
+            # any other loop over a symbolic list of objects: one ARBITRARY iteration must amount to the same calls on the
+            # loop variable and nothing else (then the loop is those calls on every member, in order)
+            return self.world.broadcast_general(self, st, env, it)
         if isinstance(it, IterVal):
             # consume the iterator step by step (shared position)
             n = 0
